@@ -315,7 +315,9 @@ func (f *destinationTripper) getTransport(tlsServerName string, dialer *net.Dial
 			},
 		}
 		if f.dnsCache != nil {
-			tr.DialContext = f.dnsCache.DialContext
+			// The cache resolves the name; the connections are still made by our dialer,
+			// so that its timeout and its allow/deny networks apply.
+			tr.DialContext = f.dnsCache.dialContextVia(dialer)
 		}
 		transport, f.transports[tlsServerName] = tr, tr
 	}
